@@ -86,6 +86,10 @@ func NewVoteDB(db youdb.Database, rawSk *ecdsa.PrivateKey) *VoteDB {
 	nextIndex2 := ReadVoteData(v.db, v.addr, NextIndex, 2)
 	updateFn(nextIndex2)
 
+	// the certificate vote is recorded like the others (UpdateVoteData) and has to be restored like them
+	certificate := ReadVoteData(v.db, v.addr, Certificate, 1)
+	updateFn(certificate)
+
 	return v
 }
 
